@@ -1,88 +1,203 @@
-"""C13 constants: the *shape* of logger.py's context manager and of the export's scratch reset,
-read with `ast` (semantic, not textual: renaming a local does not change them).
+"""C13 constants: the stack discipline of logger.py's context manager and the scratch reset of the
+export.
 
-loggerAddAppends / loggerPopPops : attributes of `self` that `LoggingContextHandler.add` appends
-    to / `pop` pops from, at the top level of the method body (not under if/try/loop)
-loggerEnterAdds / loggerExitPops : number of unconditional `logging_context_handler.add(...)` /
-    `.pop()` calls at the top level of `logging_context.__enter__` / `__exit__`
-loggerExitConditional : number of `.pop()` calls in `__exit__` that are NOT at top level
-toRowsResets : attributes of `self` assigned at the top level of `FlowContainer.to_rows` before the
-    DFS starts; toRowsClearsRowModels : `clear_row_model()` called for the nodes before the DFS
-clearRowModelResets : attributes `BaseNode.clear_row_model` assigns
+HOW IT READS (DESIGN §2.5a): BEHAVIOUR only — the private attributes and the shape of the code (two
+parallel lists or one list of frames; a class with `__enter__` / `__exit__` or a `contextmanager`
+generator; where the scratch attributes of the export are called) do not matter.
+
+loggerAddAppends / loggerPopPops : the observables of a fresh `LoggingContextHandler` (its public
+    getters `get_<x>()`, named `<x>`) that change on `add(unit, **vars)` / that are back to their previous
+    value after `pop()`.  A set: sorted.
+loggerEnterAdds / loggerExitPops : by how many frames the processing stack of the module's
+    `logging_context_handler` grows when a `with logging_context(..)` block is entered / shrinks when it
+    is left normally (nested twice, both levels must agree)
+loggerExitConditionalPops : difference between that and what leaving the block BY AN EXCEPTION pops
+loggerExitSwallows : 1 if an exception raised inside the block does not come out of it
+toRowsScratchReset : `FlowContainer.to_rows()` on a flow with a cycle gives the same rows again after
+    every attribute it wrote on the flow object (found by watching attribute assignment and by diffing
+    the object's state) has been filled with junk — stale node ids in sets, a stale row in lists
+toRowsClearsRowModels : 1 if `to_rows()` also empties the row models (`get_row_models()`) of a node
+    the DFS does not reach
+(the names of the attributes are listed in comments for the reader; they are not tied)
 """
-import ast
+import copy
 
-from ..extract_tables import _find_class, _find_func, _parse, lean_str_list
+from .. import t1lib
+from ..extract_tables import lean_str_list
 
 
-def _top_calls(func: ast.FunctionDef, meth: str):
-    """calls `<x>.<meth>(...)` that are expression statements directly in the body"""
-    out = []
-    for st in func.body:
-        if isinstance(st, ast.Expr) and isinstance(st.value, ast.Call) and isinstance(st.value.func, ast.Attribute) \
-                and st.value.func.attr == meth:
-            out.append(st.value)
+# ------------------------------------------------------------------------------ logger
+
+
+def _observables(h):
+    out = {}
+    for name in dir(h):
+        if name.startswith("get_") and callable(getattr(h, name)):
+            try:
+                out[name[4:]] = copy.deepcopy(getattr(h, name)())
+            except Exception:  # noqa: BLE001
+                continue
     return out
 
 
-def _all_calls(func: ast.FunctionDef, meth: str):
-    return [n for n in ast.walk(func) if isinstance(n, ast.Call) and isinstance(n.func, ast.Attribute) and n.func.attr == meth]
+def probe_logger():
+    lg = t1lib.load("rpft.logger.logger")
+    h = lg.LoggingContextHandler()
+    o0 = _observables(h)
+    h.add("t1 probe unit", t1_probe_var=1)
+    o1 = _observables(h)
+    h.add("t1 probe unit 2", t1_probe_var2=2)
+    o2 = _observables(h)
+    h.pop()
+    o3 = _observables(h)
+    h.pop()
+    o4 = _observables(h)
+    add_fields = sorted(k for k in o0 if o1[k] != o0[k] and o2[k] != o1[k])
+    pop_fields = sorted(k for k in add_fields if o3[k] == o1[k] and o4[k] == o0[k])
+
+    g = lg.logging_context_handler
+    depth = lambda: len(g.get_processing_stack())  # noqa: E731
+    base = depth()
+
+    class Probe(Exception):
+        pass
+
+    try:
+        with lg.logging_context("t1 a", t1_k=1):
+            d1 = depth()
+            with lg.logging_context("t1 b"):
+                d2 = depth()
+            d3 = depth()
+        d4 = depth()
+        assert d1 - base == d2 - d1 and d2 - d3 == d3 - d4, ("nesting levels disagree", base, d1, d2, d3, d4)
+        enter_adds, exit_pops = d1 - base, d3 - d4
+        swallowed = 0
+        try:
+            with lg.logging_context("t1 c"):
+                raise Probe()
+            swallowed = 1
+        except Probe:
+            pass
+        exc_pops = (base + enter_adds) - depth()
+    finally:
+        while depth() > base:
+            g.pop()
+    assert depth() == base
+    return add_fields, pop_fields, enter_adds, exit_pops, abs(exit_pops - exc_pops), swallowed
 
 
-def _self_attr(node):
-    """`self.<a>` → a"""
-    if isinstance(node, ast.Attribute) and isinstance(node.value, ast.Name) and node.value.id == "self":
-        return node.attr
-    return None
+# ------------------------------------------------------------------------------ export scratch state
+
+
+def _flow_dict():
+    def node(u, text, dest):
+        return {"uuid": u, "actions": [{"uuid": u[:-1] + "a", "type": "send_msg", "text": text, "attachments": [], "quick_replies": []}],
+                "exits": [{"uuid": u[:-1] + "e", "destination_uuid": dest}]}
+    n1, n2, n3, n4 = (f"00000000-0000-4000-8000-00000000000{i}0" for i in (1, 2, 3, 4))
+    return {
+        "uuid": "00000000-0000-4000-8000-0000000000f0", "name": "t1 probe", "language": "eng", "type": "messaging",
+        "spec_version": "13.1.0", "revision": 0, "expire_after_minutes": 60, "localization": {},
+        # n1 → n2 → n3 → n1 (a cycle: the DFS needs its visited / completed sets); n4 is not reachable
+        "nodes": [node(n1, "one", n2), node(n2, "two", n3), node(n3, "three", n1), node(n4, "lonely", None)],
+    }
+
+
+def _snap(rows):
+    return [r.dict() for r in rows]
+
+
+def _state(obj):
+    out = {}
+    for k, v in vars(obj).items():
+        try:
+            out[k] = repr(v) if not isinstance(v, (set, frozenset)) else repr(sorted(v, key=repr))
+        except Exception:  # noqa: BLE001
+            out[k] = "?"
+    return out
+
+
+def probe_export():
+    cont = t1lib.load("rpft.rapidpro.models.containers")
+    from rpft.parsers.creation.flowrowmodel import Edge
+
+    FC = cont.FlowContainer
+    flow = FC.from_dict(_flow_dict())
+    before = _state(flow)
+    assigned = []
+    had = "__setattr__" in vars(FC)
+    orig = vars(FC).get("__setattr__")
+
+    def spy(self, name, value):
+        assigned.append(name)
+        object.__setattr__(self, name, value)
+
+    FC.__setattr__ = spy
+    try:
+        rows1 = _snap(flow.to_rows())
+    finally:
+        if had:
+            FC.__setattr__ = orig
+        else:
+            del FC.__setattr__
+    after = _state(flow)
+    assert len(rows1) >= 4, ("probe flow exported", len(rows1))
+    scratch = sorted(set(assigned) | {k for k in after if before.get(k) != after[k]})
+    # junk: every node id is "already visited / completed", a stale row sits in every list
+    uuids = {n.uuid for n in flow.nodes}
+    poisoned = []
+    for k in scratch:
+        v = getattr(flow, k, None)
+        if isinstance(v, set):
+            setattr(flow, k, set(v) | uuids | {"t1-junk"})
+        elif isinstance(v, list):
+            setattr(flow, k, [copy.deepcopy(x) for x in v[:1]] + list(v))
+        elif isinstance(v, dict):
+            setattr(flow, k, {**v, "t1-junk": "t1-junk", **{u: "t1-junk" for u in uuids}})
+        else:
+            continue
+        poisoned.append(k)
+    try:
+        rows2 = _snap(flow.to_rows())
+    except Exception:  # noqa: BLE001  (stale scratch state made the export fail: it is not reset)
+        rows2 = None
+    scratch_reset = bool(poisoned) and rows2 == rows1
+    # a node the DFS does not reach: are its row models emptied as well?
+    if rows2 != rows1:
+        flow = FC.from_dict(_flow_dict())       # a fresh object for the second question
+        flow.to_rows()
+    lonely = flow.nodes[-1]
+    lonely.initiate_row_models("t1|stale", Edge(from_="start"))
+    assert lonely.get_row_models(), "initiate_row_models left no row model"
+    try:
+        rows3 = _snap(flow.to_rows())
+    except Exception:  # noqa: BLE001
+        rows3 = None
+    clears = 1 if (not lonely.get_row_models() and (rows3 == rows1 or rows2 != rows1)) else 0
+    # names, for the reader: what a node's clear_row_model assigns
+    node_fields = []
+    if hasattr(lonely, "clear_row_model"):
+        s0 = _state(lonely)
+        lonely.initiate_row_models("t1|stale", Edge(from_="start"))
+        s1 = _state(lonely)
+        lonely.clear_row_model()
+        s2 = _state(lonely)
+        node_fields = sorted(k for k in s1 if s1[k] != s2.get(k) or s0.get(k) != s1[k])
+    return scratch, poisoned, scratch_reset, clears, node_fields
 
 
 def tables() -> str:
-    lg = _parse("logger/logger.py")
-    handler = _find_class(lg, "LoggingContextHandler")
-    ctx = _find_class(lg, "logging_context")
-    add = _find_func(handler, "add")
-    pop = _find_func(handler, "pop")
-    enter = _find_func(ctx, "__enter__")
-    exit_ = _find_func(ctx, "__exit__")
-    add_fields = [a for a in (_self_attr(c.func.value) for c in _top_calls(add, "append")) if a]
-    pop_fields = [a for a in (_self_attr(c.func.value) for c in _top_calls(pop, "pop")) if a]
-    enter_adds = len(_top_calls(enter, "add"))
-    exit_pops = len(_top_calls(exit_, "pop"))
-    exit_cond = len(_all_calls(exit_, "pop")) - exit_pops
-    # `__exit__` must not swallow exceptions either: no `return True`
-    swallows = sum(1 for n in ast.walk(exit_) if isinstance(n, ast.Return) and n.value is not None
-                   and not (isinstance(n.value, ast.Constant) and n.value.value in (None, False)))
-
-    cont = _parse("rapidpro/models/containers.py")
-    fc = _find_class(cont, "FlowContainer")
-    to_rows = _find_func(fc, "to_rows")
-    resets, clears = [], 0
-    for st in to_rows.body:
-        calls_dfs = any(isinstance(n, ast.Call) and isinstance(n.func, ast.Attribute) and n.func.attr == "_to_rows_recurse"
-                        for n in ast.walk(st))
-        if calls_dfs:
-            break
-        if isinstance(st, ast.Assign):
-            for t in st.targets:
-                a = _self_attr(t)
-                if a:
-                    resets.append(a)
-        if isinstance(st, ast.For) and _all_calls(st, "clear_row_model"):
-            clears += 1
-    nodes = _parse("rapidpro/models/nodes.py")
-    crm = _find_func(_find_class(nodes, "BaseNode"), "clear_row_model")
-    crm_fields = []
-    for st in crm.body:
-        if isinstance(st, ast.Assign):
-            crm_fields += [a for a in (_self_attr(t) for t in st.targets) if a]
+    add_fields, pop_fields, enter_adds, exit_pops, exit_cond, swallows = probe_logger()
+    scratch, poisoned, scratch_reset, clears, node_fields = probe_export()
     return "\n".join([
+        "-- observables of LoggingContextHandler (public getters) that add grows / pop restores: a set, sorted",
         f"def loggerAddAppends : List (List Char) := {lean_str_list(add_fields)}",
         f"def loggerPopPops : List (List Char) := {lean_str_list(pop_fields)}",
         f"def loggerEnterAdds : Nat := {enter_adds}",
         f"def loggerExitPops : Nat := {exit_pops}",
         f"def loggerExitConditionalPops : Nat := {exit_cond}",
         f"def loggerExitSwallows : Nat := {swallows}",
-        f"def toRowsResets : List (List Char) := {lean_str_list(resets)}",
+        f"-- attributes to_rows writes on the flow object: {', '.join(scratch)}; filled with junk for the probe: {', '.join(poisoned)}",
+        f"def toRowsScratchReset : Bool := {'true' if scratch_reset else 'false'}",
         f"def toRowsClearsRowModels : Nat := {clears}",
-        f"def clearRowModelResets : List (List Char) := {lean_str_list(crm_fields)}",
+        f"-- attributes of a node that hold its row models: {', '.join(node_fields)}",
     ]) + "\n"
